@@ -1,4 +1,5 @@
 import NessaiVerif.Model.Quadrature
+import NessaiVerif.Model.Information
 import NessaiVerif.Driver.Parse
 /-
 Line protocol of the quadrature model (area token `quad`), run at `K := Rat`.
@@ -16,6 +17,11 @@ Shrinkage:   trailing tokens `t` (tOfN, exact) or `logt <keys:[n,..]> <vals:[r,.
         → ok Z=<r> W=[..] | err=value | err=index
   quad sched incr <k> <n> | quad sched onepass <len> <n>
   quad round <r> <bits>                               the output rounding itself
+  quad infoz <base> <ns:[n|none,..]> <Ls> <shrink…>   the evidence after each increment (information state)
+        → ok Zs=[..]
+  quad info <base> <ns> <Ls> <lgLs> <lgZs> <shrink…>  the information recursion with the logarithm given as a table:
+        lg L_i = lgLs_i, lg Z_i = lgZs_i (Z_i = exact evidence after increment i, computed here)
+        → ok info=[..] err2=<r>|nan       (err2 = info[-1] / base, `nan` when info[-1] < 0)
 -/
 namespace NessaiVerif.Driver.Quad
 open NessaiVerif NessaiVerif.Parse NessaiVerif.Quad
@@ -73,6 +79,13 @@ def parseNLive? (s : String) : Option NLive :=
   | ["arr", ns] => (parseList? parseNat? ns).map NLive.arr
   | _ => none
 
+/-- the evidence after each increment of the information state -/
+def infoZs (lg : Rat → Rat) (steps : List (Rat × Rat)) : List Rat :=
+  let rec go (s : Info.ISt Rat) : List (Rat × Rat) → List Rat
+    | [] => []
+    | (L, t) :: rest => let s' := s.step lg L t; s'.Z :: go s' rest
+  go Info.ISt.init steps
+
 def handle (toks : List String) : String :=
   match toks with
   | "sampler" :: n :: k :: ls :: sh =>
@@ -115,6 +128,29 @@ def handle (toks : List String) : String :=
       | .ok s => "ok " ++ showList toString s
       | .error e => showErr e
     | _, _ => "bad-op"
+  | "infoz" :: base :: ns :: ls :: sh =>
+    match parseNat? base, parseList? (parseOpt? parseNat?) ns, parseList? parseNum? ls, parseShrink? sh with
+    | some base, some ns, some ls, some (shrink, covered) =>
+      if ns.length ≠ ls.length then "bad-op"
+      else if !((ns.map (·.getD base)).all covered) then "bad-op" else
+      "ok Zs=" ++ showList showDy (infoZs (fun x => x) (ls.zip (ns.map fun n => shrink (n.getD base))))
+    | _, _, _, _ => "bad-op"
+  | "info" :: base :: ns :: ls :: lgl :: lgz :: sh =>
+    match parseNat? base, parseList? (parseOpt? parseNat?) ns, parseList? parseNum? ls,
+          parseList? parseNum? lgl, parseList? parseNum? lgz, parseShrink? sh with
+    | some base, some ns, some ls, some lgl, some lgz, some (shrink, covered) =>
+      if ns.length ≠ ls.length || lgl.length ≠ ls.length || lgz.length ≠ ls.length then "bad-op"
+      else if !((ns.map (·.getD base)).all covered) then "bad-op" else
+      let steps := ls.zip (ns.map fun n => shrink (n.getD base))
+      let zs := infoZs (fun x => x) steps
+      let table := ls.zip lgl ++ zs.zip lgz
+      let lg : Rat → Rat := fun x => ((table.find? fun p => p.1 == x).map (·.2)).getD 0
+      let s := (Info.ISt.init : Info.ISt Rat).run lg steps
+      let e := match Info.errSq s.last base with
+        | none => "nan"
+        | some v => showDy v
+      s!"ok info={showList showDy s.info} err2={e}"
+    | _, _, _, _, _, _ => "bad-op"
   | ["round", r, bits] =>
     match parseNum? r, parseNat? bits with
     | some r, some bits => let (m, e) := roundDy bits r; s!"{m}@{e}"
